@@ -106,15 +106,24 @@ def replay_pickle_rt(ni, vi, ti, n):
   return _pickle_rt(L.real_client, ni, vi, ti, n)
 
 
-def _batching(mod, n, batch, kind):
+def _submit(f, n, dups):
+  """n datapoints through the factory's public entry; datapoint i repeats datapoint i-1 exactly when bit
+  i of `dups` is set (a sender may legitimately repeat itself: nothing may be merged)."""
+  items = []
+  for i in range(n):
+    item = items[-1] if (i > 0 and (dups >> i) & 1) else ('m', (i, i))
+    f.sendDatapoint(item[0], item[1])
+    items.append(item)
+  return items
+
+
+def _batching(mod, n, batch, kind, dups=0):
   clock = L.configure(mod, 100, 100, 100, batch)
   f = L.make_factory(mod, kind=kind)
   proto, t, batches = L.connect(f)
   for c in clock.getDelayedCalls():
     c.cancel()
-  before = L.fill(f, n)
-  if n:
-    f.scheduleSend()
+  before = _submit(f, n, dups)
   L.drain_clock(clock)
   cover('drained')
   flat = [x for b in batches for x in b]
@@ -126,20 +135,21 @@ def _batching(mod, n, batch, kind):
   return len(f.queue) == 0
 
 
-def C15_batching(n: int, batch: int, pickle_proto: bool) -> bool:
+def C15_batching(n: int, batch: int, pickle_proto: bool, dups: int) -> bool:
   """
   pre: 0 <= n <= 7
   pre: batch >= 1
+  pre: 0 <= dups < 128
   post: __return__
   """
-  return _batching(L.SHADOW, n, batch, 'pickle' if pickle_proto else 'line')
+  return _batching(L.SHADOW, n, batch, 'pickle' if pickle_proto else 'line', dups)
 
 
-def replay_batching(n, batch, pickle_proto):
-  return _batching(L.real_client, n, batch, 'pickle' if pickle_proto else 'line')
+def replay_batching(n, batch, pickle_proto, dups):
+  return _batching(L.real_client, n, batch, 'pickle' if pickle_proto else 'line', dups)
 
 
-def _batch_wire(cmod, n, batch, kind):
+def _batch_wire(cmod, n, batch, kind, dups=0):
   """Whole path with the real encoders: queue of n datapoints split into messages, every byte
   written fed to the real listener."""
   clock = L.configure(cmod, 100, 100, 100, batch)
@@ -147,9 +157,7 @@ def _batch_wire(cmod, n, batch, kind):
   proto, t, _ = L.connect(f, record=False, transport=RecTransport())
   for c in clock.getDelayedCalls():
     c.cancel()
-  before = L.fill(f, n)
-  if n:
-    f.scheduleSend()
+  before = _submit(f, n, dups)
   L.drain_clock(clock)
   r = make_receiver(protocols.MetricPickleReceiver if kind == 'pickle' else protocols.MetricLineReceiver)
   try:
@@ -163,17 +171,18 @@ def _batch_wire(cmod, n, batch, kind):
   return rec.items == want
 
 
-def C15_batch_wire(n: int, batch: int, pickle_proto: bool) -> bool:
+def C15_batch_wire(n: int, batch: int, pickle_proto: bool, dups: int) -> bool:
   """
   pre: 0 <= n <= 5
   pre: 1 <= batch <= 6
+  pre: 0 <= dups < 32
   post: __return__
   """
-  return _batch_wire(L.SHADOW, n, batch, 'pickle' if pickle_proto else 'line')
+  return _batch_wire(L.SHADOW, n, batch, 'pickle' if pickle_proto else 'line', dups)
 
 
-def replay_batch_wire(n, batch, pickle_proto):
-  return _batch_wire(L.real_client, n, batch, 'pickle' if pickle_proto else 'line')
+def replay_batch_wire(n, batch, pickle_proto, dups):
+  return _batch_wire(L.real_client, n, batch, 'pickle' if pickle_proto else 'line', dups)
 
 
 _ASSUME = ['values, timestamps and names come from boundary tables (symbolic indices): printf("%.10f"), strtod and the C pickle codec '
@@ -191,12 +200,12 @@ HARNESSES = [
     thorough=dict(timeout=1200, shards=[('v%d' % k, 'vi %% 8 == %d' % k) for k in range(8)]), covers=['sent'], replay='replay_pickle_rt',
     encodes=['carbon.client:CarbonPickleClientProtocol._sendDatapointsNow', 'carbon.protocols:MetricPickleReceiver.stringReceived'],
     assumptions=_ASSUME),
-  H('C15_batching', quick=dict(timeout=280, shards=[('n%d' % k, 'n == %d' % k) for k in range(8)]), covers=['drained'], replay='replay_batching',
+  H('C15_batching', quick=dict(timeout=280, shards=[('n%d' % k, 'n == %d' % k) for k in range(8)], extra_pre=['dups < 2 ** n', 'n <= 4 or dups in (0, 2, 12, 20, 40, 96)']), covers=['drained'], replay='replay_batching',
     twin_pre=['n <= 3'],
     encodes=['carbon.client:CarbonClientFactory.takeSomeFromQueue', 'carbon.client:CarbonClientProtocol.sendQueued',
              'carbon.client:CarbonClientFactory.scheduleSend'],
-    assumptions=['queue length 0..7, MAX_DATAPOINTS_PER_MESSAGE any symbolic int >= 1, encoders replaced by a recorder, timers run to quiescence']),
-  H('C15_batch_wire', quick=dict(timeout=280, shards=[('line', 'not pickle_proto'), ('pickle', 'pickle_proto')]), covers=['received'],
+    assumptions=['0..7 datapoints submitted through sendDatapoint, each optionally an exact repeat of its predecessor (symbolic bits), MAX_DATAPOINTS_PER_MESSAGE any symbolic int >= 1, encoders replaced by a recorder, timers run to quiescence']),
+  H('C15_batch_wire', quick=dict(timeout=280, shards=[('line', 'not pickle_proto'), ('pickle', 'pickle_proto')], extra_pre=['dups < 2 ** n', 'dups in (0, 2, 4, 6, 24)']), covers=['received'],
     replay='replay_batch_wire',
     encodes=['carbon.client (send path)', 'carbon.protocols (receive path)'],
     assumptions=_ASSUME + ['queue length 0..5, batch size 1..6, real encoders and real listeners']),
